@@ -45,10 +45,11 @@ type Gen struct {
 
 // Weights of step families; zero disables (swarm variation).
 type Weights struct {
-	Register, Deregister, KV, Session, Txn, Reap, Advance, Snapshot, Restart, Fault int
+	Register, Deregister, KV, Session, Txn, Reap, Advance, Snapshot, Restart, Fault, Ext int
 	KVLockBias                                                                     int // extra weight of lock/unlock among KV verbs
 	Peer                                                                           bool
 	Kinds                                                                          bool
+	InPlaceKind                                                                    bool
 }
 
 func NewGen(r *rand.Rand, u Universe, w Weights) *Gen { return &Gen{R: r, U: u, W: w} }
@@ -130,6 +131,18 @@ func (g *Gen) fillService(s *Step) {
 	if simkit.Chance(g.R, 30) {
 		s.Tags = []string{g.pick([]string{"v1", "v2", "primary"})}
 	}
+	if g.W.Kinds && s.Peer != "" {
+		// what a peer exports arrives as typical services and mesh gateways only; sidecar proxies with
+		// upstreams are never imported (the mesh-topology code is explicitly not peering aware)
+		if simkit.Chance(g.R, 20) {
+			s.Kind = "mesh-gateway"
+			s.Svc = "mgw"
+			if s.SvcID != "" {
+				s.SvcID = s.Svc + g.pick([]string{"1", "2"})
+			}
+		}
+		return
+	}
 	if g.W.Kinds {
 		switch simkit.Weighted(g.R, []int{50, 20, 10, 5, 5, 5, 5}) {
 		case 1:
@@ -149,6 +162,12 @@ func (g *Gen) fillService(s *Step) {
 			}
 		case 2:
 			s.Kind = "connect-native"
+			// distinct instance ids: re-registering an existing instance id with another kind in
+			// place is exercised only where asked for (Weights.InPlaceKind), see known finding
+			// C07-stale-derived-rows-after-in-place-kind-change
+			if !g.W.InPlaceKind {
+				s.SvcID = s.Svc + "-n" + g.pick([]string{"1", "2"})
+			}
 		case 3:
 			s.Kind = "mesh-gateway"
 			s.Svc = "mgw"
@@ -317,7 +336,7 @@ func (g *Gen) Reap() Step {
 // Next draws one step according to the weights.
 func (g *Gen) Next() Step {
 	w := g.W
-	fams := []int{w.Register, w.Deregister, w.KV, w.Session, w.Txn, w.Reap, w.Advance, w.Snapshot, w.Restart}
+	fams := []int{w.Register, w.Deregister, w.KV, w.Session, w.Txn, w.Reap, w.Advance, w.Snapshot, w.Restart, w.Ext}
 	var s Step
 	switch simkit.Weighted(g.R, fams) {
 	case 0:
@@ -338,6 +357,8 @@ func (g *Gen) Next() Step {
 		s = Step{Op: "leader.snapshot"}
 	case 8:
 		s = Step{Op: "leader.restart"}
+	case 9:
+		s = g.Ext()
 	}
 	if w.Fault > 0 && s.Op != "advance" && s.Op[:2] != "le" && simkit.Chance(g.R, w.Fault) {
 		s.Fault = g.pick([]string{"not-leader", "lost-reply"})
